@@ -91,7 +91,7 @@ macro_rules! fields {
 /// Byte strings in events: full when short, else length + head + tail + checksum.
 fn data_fields(m: &mut Map<String, Value>, b: &[u8]) {
     m.insert("len".into(), json!(b.len()));
-    if b.len() <= 600 {
+    if b.len() <= 2048 {
         m.insert("bytes".into(), jbytes(b));
     } else {
         m.insert("head".into(), jbytes(&b[..16]));
@@ -309,6 +309,14 @@ pub struct World {
     pub keep: Vec<Box<dyn std::any::Any + Send>>,
 }
 
+/// Option<usize> without JSON null (the TLA+ JSON reader rejects null): None = -1.
+fn opt_num(x: Option<usize>) -> Value {
+    match x {
+        Some(n) => json!(n.min(i32::MAX as usize)),
+        None => json!(-1),
+    }
+}
+
 fn key(who: &str, tag: &str) -> String {
     format!("{who}:{tag}")
 }
@@ -341,11 +349,14 @@ fn big(v: &Value, k: &str, d: u64) -> u64 {
 
 /// Payload of a write step: explicit bytes, or a pattern {len, salt, off}.
 fn payload(step: &Value) -> Vec<u8> {
+    payload_salted(step, u(step, "salt", 0) as usize)
+}
+
+fn payload_salted(step: &Value, salt: usize) -> Vec<u8> {
     if step.get("bytes").is_some() {
         return byte_arr(step, "bytes");
     }
     let len = u(step, "len", 0) as usize;
-    let salt = u(step, "salt", 0) as usize;
     let off = u(step, "off", 0) as usize;
     (off..off + len).map(|i| gen::pat(i, salt)).collect()
 }
@@ -527,9 +538,13 @@ impl wtransport::config::DnsResolver for FixedDns {
 
 fn sut_server_config(cfg: &Value) -> ServerConfig {
     let id = Identity::self_signed(["localhost", "127.0.0.1", "::1"]).expect("identity");
-    let b = ServerConfig::builder()
-        .with_bind_address("127.0.0.1:0".parse().unwrap())
-        .with_identity(id);
+    let port = u(cfg, "port", 0) as u16;
+    let b = if s(cfg, "bind") == "dual" {
+        ServerConfig::builder().with_bind_config(wtransport::config::IpBindConfig::LocalDual, port)
+    } else {
+        ServerConfig::builder().with_bind_address(format!("127.0.0.1:{port}").parse().unwrap())
+    }
+    .with_identity(id);
     let idle = u(cfg, "idle_ms", 20_000);
     let b = b
         .max_idle_timeout(Some(Duration::from_millis(idle)))
@@ -542,9 +557,12 @@ fn sut_server_config(cfg: &Value) -> ServerConfig {
 }
 
 fn sut_client_config(cfg: &Value, server: SocketAddr) -> ClientConfig {
-    let b = ClientConfig::builder()
-        .with_bind_address("127.0.0.1:0".parse().unwrap())
-        .with_no_cert_validation();
+    let b = if s(cfg, "bind") == "dual" {
+        ClientConfig::builder().with_bind_default()
+    } else {
+        ClientConfig::builder().with_bind_address("127.0.0.1:0".parse().unwrap())
+    }
+    .with_no_cert_validation();
     let idle = u(cfg, "idle_ms", 20_000);
     let b = b
         .max_idle_timeout(Some(Duration::from_millis(idle)))
@@ -797,7 +815,7 @@ async fn setup(w: &mut World, scn: &Value) {
                 }
             };
             w.log.emit("peer", "raw_accept", fields! {"res" => "ok",
-                "alpn" => conn.handshake_data().and_then(|h| h.downcast::<quinn::crypto::rustls::HandshakeData>().ok()).and_then(|h| h.protocol.clone()).map(|p| jbytes(&p)).unwrap_or(json!(null))});
+                "alpn" => conn.handshake_data().and_then(|h| h.downcast::<quinn::crypto::rustls::HandshakeData>().ok()).and_then(|h| h.protocol.clone()).map(|p| jbytes(&p)).unwrap_or(json!([]))});
             w.raw = Some(conn.clone());
             w.keep.push(Box::new(sep));
             if !manual {
@@ -1121,6 +1139,26 @@ async fn stream_op(log: Arc<Log>, who: String, streams: Shared<Streams>, step: V
                     m.insert("end".into(), end);
                     m.insert("sizes".into(), json!(sizes));
                     m.insert("res".into(), json!("done"));
+                    let by_id = step.get("salt_from_id").is_some();
+                    if step.get("salt").is_some() || by_id {
+                        // measurement: longest prefix equal to the position-determined pattern
+                        let salt = if by_id {
+                            match &r {
+                                RecvH::App(x) => ((x.id().into_u64() >> 2) % 200) as usize,
+                                RecvH::Raw(x) => ((u64::from(quinn::VarInt::from(x.id())) >> 2) % 200) as usize,
+                            }
+                        } else {
+                            u(&step, "salt", 0) as usize
+                        };
+                        let off = u(&step, "off", 0) as usize;
+                        let upto = all
+                            .iter()
+                            .enumerate()
+                            .take_while(|(i, b)| **b == gen::pat(off + i, salt))
+                            .count();
+                        m.insert("pat_upto".into(), json!(upto));
+                        m.insert("salt".into(), json!(salt));
+                    }
                     streams.lock().await.recv.insert(k, r);
                 }
                 None => {
@@ -1132,7 +1170,15 @@ async fn stream_op(log: Arc<Log>, who: String, streams: Shared<Streams>, step: V
             let h = streams.lock().await.send.remove(&k);
             match h {
                 Some(mut sx) => {
-                    let data = payload(&step);
+                    let salt_eff = if step.get("salt_from_id").is_some() {
+                        match &sx {
+                            SendH::App(x) => ((x.id().into_u64() >> 2) % 200) as usize,
+                            SendH::Raw(x) => ((u64::from(quinn::VarInt::from(x.id())) >> 2) % 200) as usize,
+                        }
+                    } else {
+                        u(&step, "salt", 0) as usize
+                    };
+                    let data = payload_salted(&step, salt_eff);
                     let chunk = u(&step, "chunk", 0) as usize;
                     let mut off = 0usize;
                     let mut res = json!({"k": "ok"});
@@ -1159,13 +1205,30 @@ async fn stream_op(log: Arc<Log>, who: String, streams: Shared<Streams>, step: V
                         Ok(Err(e)) => res = json!({"k": "err", "err": e}),
                         Err(_) => res = json!({"k": "timeout"}),
                     }
+                    let write_ok = res["k"] == "ok";
                     m.insert("res".into(), res);
                     m.insert("written".into(), json!(off));
                     m.insert("len".into(), json!(data.len()));
-                    m.insert("salt".into(), json!(u(&step, "salt", 0)));
+                    m.insert("salt".into(), json!(salt_eff));
                     m.insert("off".into(), json!(u(&step, "off", 0)));
                     if step.get("bytes").is_some() {
                         m.insert("bytes".into(), step["bytes"].clone());
+                    }
+                    if write_ok && step.get("then_finish").and_then(|v| v.as_bool()).unwrap_or(false) {
+                        log.emit(&who, "op_done", m);
+                        m = fields! {"op" => "finish", "tag" => tag.clone()};
+                        let r = match &mut sx {
+                            SendH::App(x) => match timeout(dl, x.finish()).await {
+                                Ok(Ok(())) => json!({"k": "ok"}),
+                                Ok(Err(e)) => json!({"k": "err", "err": write_err(&e)}),
+                                Err(_) => json!({"k": "timeout"}),
+                            },
+                            SendH::Raw(x) => match x.finish() {
+                                Ok(()) => json!({"k": "ok"}),
+                                Err(_) => json!({"k": "err", "err": {"k": "Closed"}}),
+                            },
+                        };
+                        m.insert("res".into(), r);
                     }
                     streams.lock().await.send.insert(k, sx);
                 }
@@ -1355,7 +1418,7 @@ async fn run_step(w: &mut World, step: &Value) {
         }
         ("peer", "max_dgram") => {
             let Some(c) = w.raw.clone() else { return };
-            w.log.emit("peer", "peer_max_dgram", fields! {"max" => c.max_datagram_size()});
+            w.log.emit("peer", "peer_max_dgram", fields! {"max" => opt_num(c.max_datagram_size())});
         }
         ("peer", "close") => {
             let Some(c) = w.raw.clone() else { return };
@@ -1465,6 +1528,21 @@ async fn run_step(w: &mut World, step: &Value) {
         }
         (_, "send_dgram") => {
             let Some(c) = conn_of(w, &who) else { return };
+            // `rel`: length chosen relative to the maximum measured right now (an input choice)
+            let mut st2 = step.clone();
+            if let Some(rel) = step.get("rel").and_then(|v| v.as_i64()) {
+                let cur = std::panic::catch_unwind(std::panic::AssertUnwindSafe(|| c.max_datagram_size()))
+                    .ok()
+                    .flatten();
+                match cur {
+                    Some(mx) if mx as i64 + rel >= 0 => st2["len"] = json!(mx as i64 + rel),
+                    _ => {
+                        w.log.emit(&who, "skipped", fields! {"op" => "send_dgram", "rel" => rel});
+                        return;
+                    }
+                }
+            }
+            let step = &st2;
             let data = payload(step);
             let before = std::panic::catch_unwind(std::panic::AssertUnwindSafe(|| c.max_datagram_size()));
             let r = c.send_datagram(&data);
@@ -1475,8 +1553,8 @@ async fn run_step(w: &mut World, step: &Value) {
                 Err(SendDatagramError::UnsupportedByPeer) => "unsupported",
                 Err(SendDatagramError::NotConnected) => "notconn",
             }};
-            m.insert("max_before".into(), match before { Ok(x) => json!(x), Err(_) => json!("panic") });
-            m.insert("max_after".into(), match after { Ok(x) => json!(x), Err(_) => json!("panic") });
+            m.insert("max_before".into(), match before { Ok(x) => opt_num(x), Err(_) => json!(-2) });
+            m.insert("max_after".into(), match after { Ok(x) => opt_num(x), Err(_) => json!(-2) });
             m.insert("salt".into(), json!(u(step, "salt", 0)));
             data_fields(&mut m, &data);
             w.log.emit(&who, "op_done", m);
@@ -1485,11 +1563,11 @@ async fn run_step(w: &mut World, step: &Value) {
             let Some(c) = conn_of(w, &who) else { return };
             let r = std::panic::catch_unwind(std::panic::AssertUnwindSafe(|| c.max_datagram_size()));
             let quic = c.quic_connection().max_datagram_size();
-            let mut m = fields! {"op" => "max_dgram", "quic_max" => quic, "sid" => v62(c.session_id().into_u64())};
+            let mut m = fields! {"op" => "max_dgram", "quic_max" => opt_num(quic), "sid" => v62(c.session_id().into_u64())};
             match r {
                 Ok(x) => {
                     m.insert("res".into(), json!("ok"));
-                    m.insert("max".into(), json!(x));
+                    m.insert("max".into(), opt_num(x));
                 }
                 Err(_) => {
                     m.insert("res".into(), json!("panic"));
@@ -1575,7 +1653,7 @@ pub async fn run_scenario(log: Arc<Log>, scn: &Value) {
         "harness",
         "setup_done",
         fields! {"app" => w.app.is_some(), "app2" => w.app2.is_some(), "raw" => w.raw.is_some(),
-        "app_sid" => w.app.as_ref().map(|c| v62(c.session_id().into_u64()))},
+        "app_sid" => w.app.as_ref().map(|c| v62(c.session_id().into_u64())).unwrap_or(json!([-1, -1]))},
     );
     if let Some(steps) = scn.get("steps").and_then(|v| v.as_array()) {
         for st in steps {
